@@ -339,7 +339,65 @@ def t_options(repo, out):
     _option_defs(repo, "suds/transport/options.py", out, "transportOptionDefs")
 
 
-TABLES = [t_encoder, t_namespaces, t_boolean, t_parser_sites, t_reply_status, t_options]
+def _hook_calls(func, domain):
+    """Names of `plugins.<domain>.<hook>(...)` calls in source order."""
+    found = []
+    for n in ast.walk(func):
+        if isinstance(n, ast.Call) and isinstance(n.func, ast.Attribute) and isinstance(n.func.value, ast.Attribute) \
+                and n.func.value.attr == domain:
+            found.append((n.lineno, n.col_offset, n.func.attr))
+    return [h for _l, _c, h in sorted(found)]
+
+
+def t_plugins(repo, out):
+    """C16: plugin domains and the hook call sites, in source order."""
+    rel = "suds/plugin.py"
+    tree = parse(repo, rel)
+    pc = find_class(tree, "PluginContainer", rel)
+    dom = class_assign(pc, "domains", rel)
+    if not isinstance(dom, ast.Dict):
+        raise TranslatorError("PluginContainer.domains is not a dict literal")
+    pairs = []
+    for k, v in zip(dom.keys, dom.values):
+        if not (isinstance(v, ast.Tuple) and len(v.elts) == 2 and isinstance(v.elts[1], ast.Name)):
+            raise TranslatorError("PluginContainer.domains entry not recognised")
+        pairs.append((lit(k, "domain"), v.elts[1].id))
+    out.append("/-- `PluginContainer.domains`: domain name -> plugin base class. -/")
+    out.append("def pluginDomains : List (String × String) := %s"
+               % llist("(%s, %s)" % (lstr(a), lstr(b)) for a, b in pairs))
+    hooks = {}
+    for node in tree.body:
+        if isinstance(node, ast.ClassDef) and node.name in [b for _a, b in pairs]:
+            hooks[node.name] = [f.name for f in node.body if isinstance(f, ast.FunctionDef)]
+    out.append("/-- hooks each plugin base class declares. -/")
+    out.append("def pluginHooks : List (String × List String) := %s"
+               % llist("(%s, %s)" % (lstr(k), llist(lstr(h) for h in v)) for k, v in sorted(hooks.items())))
+    rel2 = "suds/client.py"
+    t2 = parse(repo, rel2)
+    sc = find_class(t2, "_SoapClient", rel2)
+    out.append("/-- message hooks called by `_SoapClient.send`, in source order. -/")
+    out.append("def sendHookCalls : List String := %s" % llist(lstr(h) for h in _hook_calls(find_func(sc, "send", rel2), "message")))
+    out.append("/-- message hooks called by `_SoapClient.process_reply`, in source order. -/")
+    out.append("def replyHookCalls : List String := %s"
+               % llist(lstr(h) for h in _hook_calls(find_func(sc, "process_reply", rel2), "message")))
+    rel3 = "suds/reader.py"
+    t3 = parse(repo, rel3)
+    dr = find_class(t3, "DocumentReader", rel3)
+    fetch = None
+    for f in dr.body:
+        if isinstance(f, ast.FunctionDef) and f.name.endswith("__fetch"):
+            fetch = f
+    if fetch is None:
+        raise TranslatorError("DocumentReader.__fetch not found")
+    out.append("/-- document hooks called by `DocumentReader.__fetch` / `.open`. -/")
+    out.append("def fetchHookCalls : List String := %s" % llist(lstr(h) for h in _hook_calls(fetch, "document")))
+    out.append("def openHookCalls : List String := %s"
+               % llist(lstr(h) for h in _hook_calls(find_func(dr, "open", rel3), "document")))
+    ci = find_func(find_class(t2, "Client", rel2), "__init__", rel2)
+    out.append("def initHookCalls : List String := %s" % llist(lstr(h) for h in _hook_calls(ci, "init")))
+
+
+TABLES = [t_encoder, t_namespaces, t_boolean, t_parser_sites, t_reply_status, t_options, t_plugins]
 
 
 def generate(repo):
